@@ -525,6 +525,17 @@ func runC17(r *Run) error {
 		in.Opts.CompatThreshold = []float64{0.3, 1}[r.Rng.Intn(2)]
 		ins = append(ins, in)
 	}
+	// modular start genomes (two control genes): crossover inherits modules through mateModules; outside the
+	// Coq model (no case files), covered by the repeat-run and twin-process oracle only
+	for i := 0; i < r.N(10, 120); i++ {
+		in := newEpochInput(r, "C17", 20, 6, true)
+		starts := startGenomes()
+		if m := withModule(r.Rng, starts[r.Rng.Intn(len(starts))], true); m != nil {
+			in.Start = genomeText(m)
+			in.Opts.MutateOnlyProb = 0.2
+			ins = append(ins, in)
+		}
+	}
 	traces := c17Check(r, ins, r.N(40, 110))
 	for i, in := range ins {
 		t := &traces[i]
